@@ -1,10 +1,240 @@
-"""Implementation-side runs (stfsdrv): correspondence and oracles."""
+"""Implementation-side runs (stfsdrv) for the M2 properties: fault enumeration (C10) and the
+read-only oracle (C15)."""
+import collections, copy, json, random
+import hist, streams
 from vlib import *
+
+SEAMS = ["open-write", "drive-write", "close-write", "open-read", "close-read", "meta", "src-read"]
+READ_OPS = ("readfile", "read", "readat", "seek", "readdir")
+
+
+def fault_bases(ctx):
+    quick = ctx.tier == "quick"
+    rng = random.Random(ctx.seed * 31 + 5)
+    hs = []
+    fixed = [
+        [{"op": "mkdir", "name": "/a", "perm": 0o755}, {"op": "createfile", "name": "/a/f", "blob": 0}, {"op": "rename", "name": "/a/f", "name2": "/a/g"},
+         {"op": "chmod", "name": "/a/g", "perm": 0o600}, {"op": "removeall", "name": "/a"}, {"op": "removeall", "name": "/missing"}],
+        [{"op": "archive", "files": [{"path": "/x", "blob": 0, "mode": 0o644}, {"path": "/d", "blob": -1, "mode": 0o755}, {"path": "/d/y", "blob": 1, "mode": 0o644}]},
+         {"op": "update", "files": [{"path": "/x", "blob": 1, "mode": 0o644}], "flag": True}, {"op": "move", "name": "/d", "name2": "/e"},
+         {"op": "delete", "name": "/e"}, {"op": "restore", "name": "/x", "name2": "", "flag": True}, {"op": "readfile", "name": "/x"}],
+        [{"op": "mkdirall", "name": "/p/q/r", "perm": 0o755}, {"op": "writefile", "name": "/p/q/f", "flags": hist.O_WRONLY | hist.O_CREATE, "perm": 0o644, "blob": 1},
+         {"op": "writefile", "name": "/p/q/f", "flags": hist.O_WRONLY | hist.O_APPEND, "perm": 0o644, "blob": 0}, {"op": "chown", "name": "/p", "uid": 5, "gid": 6},
+         {"op": "rename", "name": "/p/q", "name2": "/z"}, {"op": "remove", "name": "/z/f"}, {"op": "stat", "name": "/z"}, {"op": "reopen"}],
+    ]
+    for calls in fixed:
+        hs.append({"config": {"rs": 3, "cache": "file"}, "blobs": [{"seed": 1, "len": 700}, {"seed": 2, "len": 2000}],
+                   "calls": [{"op": "initialize"}] + calls, "obs": []})
+    for i in range(2 if quick else 25):
+        rs = rng.choice([1, 2, 20])
+        g = hist.Gen(random.Random(rng.random()), rs, alpha=hist.SAFE_ALPHA, max_calls=7 if quick else 12, ops_level=True, malformed=0.15)
+        h = g.history({"rs": rs, "cache": "file"}, [])
+        hs.append(h)
+    return hs
 
 
 def faults_C10(ctx, proof_ok):
-    ctx.note("fault-enumeration harness not wired yet")
+    """For every call of every base history and every fault point the fault-free run reaches at a seam:
+    re-run with that fault, then probe. The call must return, the drive must be free, the probe must complete."""
+    ok, out = hist.build_harness()
+    ctx.oblige("harness builds against the current /repo", ok, out[-1500:])
+    if not ok:
+        return
+    cached, p = streams.cache_get(ctx, "faults")
+    if cached is None:
+        bases = fault_bases(ctx)
+        clean = hist.run_many(bases)
+        plans = []
+        for bi, (h, (res, rc, err)) in enumerate(zip(bases, clean)):
+            for r in res:
+                j = r["i"]
+                for seam, n in sorted((r.get("seams") or {}).items()):
+                    ks = list(range(1, n + 1))
+                    if len(ks) > 6 and ctx.tier == "quick":
+                        ks = ks[:3] + [ks[len(ks) // 2]] + ks[-2:]
+                    for k in ks:
+                        plans.append((bi, j, seam, k))
+        runs = []
+        for (bi, j, seam, k) in plans:
+            h = copy.deepcopy(bases[bi])
+            h["calls"] = h["calls"][:j + 1]
+            h["calls"][j]["fault"] = {"seam": seam, "k": k}
+            h["calls"][j]["tmo"] = 4000
+            h["calls"] += [{"op": "mkdir", "name": "/probe-%d" % j, "perm": 0o755, "tmo": 4000}, {"op": "stat", "name": "/probe-%d" % j, "tmo": 4000}]
+            h["obs"] = []
+            runs.append(h)
+        out = hist.run_many(runs, timeout=60)
+        cached = dict(bases=bases, clean=[dict(res=r, rc=rc, err=e) for (r, rc, e) in clean], plans=plans,
+                      runs=[dict(res=r, rc=rc, err=e[-600:]) for (r, rc, e) in out])
+        streams.cache_put(p, cached)
+    bases, plans, runs = cached["bases"], cached["plans"], cached["runs"]
+    by_seam, outcomes = collections.Counter(), collections.Counter()
+    bad = 0
+    fired = 0
+    for d in cached["clean"]:
+        if d["rc"] != 0:
+            bad += 1
+            ctx.violation("fault-free-run-failed", "base history hung or crashed without any fault", dict(exit_code=d["rc"], stderr=d["err"][-400:], last=(d["res"][-1] if d["res"] else None)))
+    for (bi, j, seam, k), d in zip(plans, runs):
+        res, rc = d["res"], d["rc"]
+        by_seam[seam] += 1
+        call = bases[bi]["calls"][j]
+        fr = res[j] if len(res) > j else None
+        if fr is not None and fr.get("fired"):
+            fired += 1
+        verdict = None
+        if rc == 3 or (fr is not None and fr["out"] == "HANG") or any(r["out"] == "HANG" for r in res):
+            verdict = "hang"
+        elif rc != 0:
+            verdict = "crash"
+        elif fr is None or len(res) < j + 3:
+            verdict = "incomplete"
+        elif fr.get("held", 0) != 0 or res[j + 1].get("held", 0) != 0:
+            verdict = "drive-not-released"
+        outcomes[verdict or "returned"] += 1
+        if verdict:
+            # the known finding: faults inside the streaming read goroutine kill the process
+            if verdict == "crash" and call["op"] in READ_OPS + ("writefile", "createfile", "write") and "goroutine" in d["err"] and "fs.(*File)" in d["err"] \
+                    and any(f["id"] == "C10-read-goroutine" for f in ctx.findings):
+                ctx.known("C10-read-goroutine", next(f["what"] for f in ctx.findings if f["id"] == "C10-read-goroutine"))
+                continue
+            bad += 1
+            if bad <= 5:
+                h = copy.deepcopy(bases[bi])
+                h["calls"] = h["calls"][:j + 1]
+                h["calls"][j]["fault"] = {"seam": seam, "k": k}
+                ctx.violation(verdict, "%s after a fault at the %d. %s event of call %d (%s)" % (verdict, k, seam, j, call["op"]),
+                              dict(history=h, fault=dict(call=j, seam=seam, k=k), then="mkdir /probe; stat /probe", exit_code=rc,
+                                   outcomes=[r["out"] for r in res], stderr=d["err"][-400:]))
+    # witness of the known finding, replayed on every run (a finding that disappears is noted)
+    wh = {"config": {"rs": 20, "cache": "file"}, "blobs": [{"seed": 1, "len": 1500}], "obs": [],
+          "calls": [{"op": "initialize"}, {"op": "createfile", "name": "/f", "blob": 0}, {"op": "open", "h": "a", "name": "/f", "flags": 0},
+                    {"op": "read", "h": "a", "n": 2}, {"op": "mkdir", "name": "/zz", "perm": 493, "tmo": 2500}]}
+    wres, wrc, werr = hist.run_history(wh)
+    if wres and wres[-1]["out"] == "HANG" and wres[-1]["i"] == 4:
+        if any(f["id"] == "C10-read-goroutine" for f in ctx.findings):
+            ctx.known("C10-read-goroutine", next(f["what"] for f in ctx.findings if f["id"] == "C10-read-goroutine"))
+        else:
+            bad += 1
+            ctx.violation("hang", "a call issued while a read handle is mid-stream never returns", dict(history=wh, outcomes=[r["out"] for r in wres]))
+    else:
+        ctx.note("finding-not-reproduced: C10-read-goroutine witness (open; read 2; mkdir) no longer hangs: %s" % [r["out"] for r in wres])
+    ctx.oblige("fault enumeration: every faulted call returned, left the drive free and a following call completed (known findings apart)", bad == 0, "%d failures" % bad)
+    ctx.coverage.update(evaluations=len(plans), fault_points=len(plans), faults_fired=fired, by_seam=dict(by_seam), verdicts={str(k): v for k, v in outcomes.items()},
+                        base_histories=len(bases), distinct_nontrivial=fired,
+                        rule="fault points = (base history, call, seam, k) for every k-th event the fault-free run of that call reaches at the seams %s; non-trivial = the injected fault actually fired" % ", ".join(SEAMS),
+                        samples=[dict(history=[c["op"] for c in bases[plans[i][0]]["calls"][:plans[i][1] + 1]], seam=plans[i][2], k=plans[i][3],
+                                      outcomes=[r["out"] for r in runs[i]["res"]]) for i in range(0, len(plans), max(1, len(plans) // 4))][:4])
 
 
 def readonly_C15(ctx, proof_ok):
-    ctx.note("read-only oracle harness not wired yet")
+    """Read-only instances over pre-populated tapes: sha-256 of the drive and a full row dump before/after
+    every call; every mutator must answer permission; reads must equal the writable twin's."""
+    ok, out = hist.build_harness()
+    ctx.oblige("harness builds against the current /repo", ok, out[-1500:])
+    if not ok:
+        return
+    cached, p = streams.cache_get(ctx, "readonly")
+    quick = ctx.tier == "quick"
+    if cached is None:
+        rng = random.Random(ctx.seed * 101 + 3)
+        hs = []
+        for i in range(12 if quick else 150):
+            rs = rng.choice([1, 3, 20])
+            g = hist.Gen(random.Random(rng.random()), rs, alpha=hist.ALPHA[:8], max_calls=10 if quick else 20, ops_level=False)
+            pre = g.history({"rs": rs, "cache": "file"}, [])
+            # phase 2: switch to a read-only instance over the same drive and index, then mix every kind of call
+            names = sorted(g.files | g.dirs)[:6] + ["/nope", "/new"]
+            ro_calls = []
+            for _ in range(14 if quick else 30):
+                n = rng.choice(names)
+                k = rng.choice(["mkdir", "mkdirall", "createfile", "writefile", "remove", "removeall", "rename", "chmod", "chown", "chtimes",
+                                "stat", "readfile", "readdir", "hwrite", "htrunc", "symlink"])
+                c = {"op": k, "name": n}
+                if k in ("mkdir", "mkdirall", "chmod"):
+                    c["perm"] = 0o700
+                elif k == "createfile":
+                    c["blob"] = 0
+                elif k == "writefile":
+                    c.update(flags=rng.choice([1, 2, 0o101, 0o1101, 0o2001, 0o1002, 0o302]), perm=0o644, blob=0, flag=True)
+                elif k == "rename":
+                    c["name2"] = rng.choice(names)
+                elif k == "symlink":
+                    c["name2"] = n + "-l"
+                elif k == "chown":
+                    c.update(uid=7, gid=8)
+                elif k == "chtimes":
+                    c.update(atime=1000000001, mtime=1100000001)
+                elif k == "readdir":
+                    c["n"] = -1
+                elif k in ("hwrite", "htrunc"):
+                    # a handle obtained read-only (any flag combination), then a write / truncate on it
+                    fl = rng.choice([0, 1, 2, 0o1002, 0o2001, 0o102])
+                    ro_calls += [{"op": "open", "h": "x", "name": n, "flags": fl, "perm": 0o644, "obs": ["force", "tapesha", "rows"]}]
+                    c = {"op": "write", "h": "x", "data": "aGVsbG8="} if k == "hwrite" else {"op": "truncate", "h": "x", "off": 1}
+                    ro_calls += [dict(c, obs=["force", "tapesha", "rows"]), {"op": "close", "h": "x", "obs": ["force", "tapesha", "rows"]}]
+                    continue
+                c["obs"] = ["tapesha", "rows"]
+                ro_calls.append(c)
+            if not g.blobs:
+                g.blobs.append({"seed": 1, "len": 10})
+            pre["blobs"] = g.blobs
+            for nowrite in (False, True):
+                h = copy.deepcopy(pre)
+                h["calls"] = h["calls"] + [{"op": "nop", "obs": ["tapesha", "rows", "tree"]},
+                                           {"op": "ro_switch", "flag": nowrite, "obs": ["tapesha", "rows", "tree"]}] + copy.deepcopy(ro_calls) + \
+                             [{"op": "nop", "obs": ["tapesha", "rows", "tree"]}]
+                hs.append(h)
+        res = hist.run_many(hs)
+        cached = [dict(h=h, res=r, rc=rc, err=e[-600:]) for h, (r, rc, e) in zip(hs, res)]
+        streams.cache_put(p, cached)
+    MUT = ("mkdir", "mkdirall", "createfile", "remove", "removeall", "rename", "chmod", "chown", "chtimes", "symlink", "write", "truncate")
+    bad, n_calls, n_mut = 0, 0, 0
+    outc = collections.Counter()
+    for d in cached:
+        h, res = d["h"], d["res"]
+        if d["rc"] != 0:
+            bad += 1
+            ctx.violation("crash-or-hang", "read-only history ended with exit code %s" % d["rc"], dict(history=h, stderr=d["err"]))
+            continue
+        sw = next(i for i, c in enumerate(h["calls"]) if c["op"] == "ro_switch")
+        base = res[sw - 1]["obs"]
+        ref_sha, ref_rows = base["tape_sha"], json.dumps(base["rows"], sort_keys=True)
+        if res[sw]["obs"].get("tree") is not None and base.get("tree") is not None:
+            import oracles
+            dd = oracles.tree_diff(base["tree"], res[sw]["obs"]["tree"])
+            if dd:
+                bad += 1
+                ctx.violation("readonly-view-differs", "read-only instance shows a different tree than the writable twin", dict(history=h, detail=dd[:3]))
+        for i in range(sw, len(res)):
+            r, c = res[i], h["calls"][i]
+            o = r.get("obs") or {}
+            n_calls += 1
+            outc[(c["op"], r["out"])] += 1
+            fail = None
+            if "tape_sha" in o and o["tape_sha"] != ref_sha:
+                fail = "tape-changed"
+            elif "rows" in o and json.dumps(o["rows"], sort_keys=True) != ref_rows:
+                fail = "index-changed"
+            elif c["op"] in MUT or (c["op"] == "writefile"):
+                n_mut += 1
+                if c["op"] == "writefile":
+                    # OpenFile itself may succeed read-only (no write flag is granted); a Write on it must be refused
+                    if r["out"] not in ("perm", "notexist", "isdir", "invalid"):
+                        fail = "mutator-not-refused"
+                elif c["op"] in ("write", "truncate"):
+                    if r["out"] not in ("perm", "isdir") and r.get("err") != "no handle":
+                        fail = "mutator-not-refused"
+                elif r["out"] != "perm" and not (r["out"] == "invalid" and c.get("name", "x") == ""):
+                    fail = "mutator-not-refused"
+            if fail:
+                bad += 1
+                if bad <= 5:
+                    ctx.violation(fail, "%s at call %d (%s -> %s) on a read-only instance" % (fail, i, c["op"], r["out"]),
+                                  dict(history=dict(config=h["config"], blobs=h["blobs"], calls=h["calls"][:i + 1]), failing_call=i, outcome=r["out"]))
+                break
+    ctx.oblige("read-only oracle: tape bytes and index rows unchanged after every call, mutators answer permission, view equals the writable twin", bad == 0, "%d failures" % bad)
+    ctx.coverage.update(evaluations=n_calls, mutator_calls=n_mut, histories=len(cached), distinct_nontrivial=len(outc),
+                        rule="pre-populated tape from a generated history, then a read-only instance (with and without write backend) receives a mix of all mutating and reading calls incl. OpenFile with every flag combination and writes/truncates on the handles; distinct = (op, outcome) pairs seen; non-trivial = all (the tape is never empty)",
+                        outcome_histogram={"%s:%s" % k: v for k, v in outc.items()},
+                        samples=[dict(calls=[c["op"] for c in cached[0]["h"]["calls"]][-12:], outcomes=[r["out"] for r in cached[0]["res"]][-12:])] if cached else [])
